@@ -129,10 +129,55 @@ def check_program(node, rec=None):
 
 def replay(case):
     progcheck.setup_process()
+    if case.get('live_dict'):
+        check_live_dict(case)
+        return
     check_program(case['ast'])
 
 
+def check_live_dict(case):
+    """A raw DictDataset over a dict the caller keeps using: a key is taken out and put back (same size, other
+    insertion order). keys(), iteration, items() and lookups stay aligned with each other."""
+    from lazy_dataset import core
+    n, top, which = case['n'], case['top'], case['which']
+    keys = [f'k{i}' for i in range(n)]
+    d = {k: ('s', i) for i, k in enumerate(keys)}
+    ds = core.DictDataset(d)
+    if top == 'map':
+        ds = ds.map(lambda x: x)
+    elif top == 'rev':
+        ds = ds[::-1]
+    elif top == 'items_first':
+        list(ds.items())
+    k = keys[which % n]
+    d[k] = d.pop(k)  # re-inserted: now last in the dict's own order
+    ks = list(ds.keys())
+    vals = list(ds)
+    items = list(ds.items())
+    desc = f'{case}: keys() {ks}, iteration {vals}, items() {items}'
+    if [kk for kk, _ in items] != ks or [v for _, v in items] != vals:
+        raise Violation('items-misaligned|live-dict', desc)
+    for kk, v in zip(ks, vals):
+        if d[kk] != v or ds[kk] != v:
+            raise Violation('keys-misaligned|live-dict', f'{desc}\nkey {kk!r} holds {d[kk]!r}, ds[key] {ds[kk]!r}')
+
+
 def run_shard(tier, idx, nshards, rec, known):
+    if idx == 0:
+        from ..common import Outcome
+        o0 = Outcome()
+        for n in (2, 3, 4):
+            for top in ('plain', 'map', 'rev', 'items_first'):
+                for which in range(n):
+                    case = {'live_dict': True, 'n': n, 'top': top, 'which': which}
+                    try:
+                        check_live_dict(case)
+                    except Violation as v:
+                        if known.match(v.sig):
+                            continue
+                        o0.violation = (case, v.sig, v.detail)
+                        return [o0]
+                    rec.case(case, True, ['live-dict', 'top:' + top], size=n)
     out = progcheck.run(lambda node: check_program(node, rec), rec, known, 'full', N[tier], seed() * 1000 + idx,
                         ctx_kw={'dict_weight': 5})
     if out.violation:
